@@ -8,5 +8,5 @@ CONSTANTS
   Variant = "fixed"
   StoreFaults = TRUE
 VIEW view
-INVARIANTS NoOldSessionOnNewFabric NoOldResumptionOnNewFabric NeverStuck CommittedSurvives
+INVARIANTS NoOldSessionOnNewFabric NoOldResumptionOnNewFabric NeverStuck CommittedSurvives CommittedOrUndone
 CHECK_DEADLOCK FALSE
